@@ -215,6 +215,11 @@ def oracle(case, io, mo):
                         fails.append(("cas-rule", "step %d: '%s' with stored version %s answered %s" % (i, line, old[1] if old else None, reply)))
                     if not ok and not reply.startswith("VersionError"):
                         fails.append(("cas-reply", "step %d: %s" % (i, reply)))
+            if w[0] in ("set", "set-safe") and reply == "Ok" and len(w) > 1:
+                # every successful mutation leaves the key with a higher version (the compare-and-set token is consumed)
+                old, new = prev.get(w[1]), keys.get(w[1])
+                if old is not None and new is not None and old[2] != "D" and 0 <= old[1] < 2147483646 and new[1] <= old[1]:
+                    fails.append(("version-not-higher", "step %d: '%s' was accepted but the version stayed %d -> %d" % (i, line, old[1], new[1])))
             if w[0] == "get-safe" and reply.startswith("Value"):
                 key = w[1]
                 ver = int(reply.split(" ")[3])
